@@ -199,6 +199,10 @@ def run(ctx):
             r.check('forward:%s' % nm, S.show(t) in values and not cond and eff == effects, ctx.site(fnp), built={'value': S.show(t), 'effects': eff, 'conditional': [S.show(e.term) for e in cond]},
                     expected={'value': values[0], 'effects': effects, 'conditional': []}, why=why + '; a cursor, a seal gate or an offset here desynchronises the write position from the buffer')
 
+    with ctx.rule('R01.9', "every frame is well-formed: the client's own Connection.Close keeps its reply text within a short string (shared with C07)", floor=2) as r:
+        A.include(ctx, r, 'c07', 'R07.5')
+        A.include(ctx, r, 'c07', 'R07.6')
+
     with ctx.rule('R01.6', 'unsent data re-arms the socket for writable after each event batch', floor=2) as r:
         evs, _ = ctx.events('io_loop::IoLoop::run_io_loop')
         site = ctx.site('io_loop::IoLoop::run_io_loop')
@@ -208,5 +212,13 @@ def run(ctx):
             S.show(rw[0].args[1]) == 'stream' and S.show(rw[0].args[2]) == 'io_loop::STREAM'
         r.check('rearm-writable', ok, site, built=[(S.show(e.term)[:160], [g[3] for g in e.guards if g[2] == 'if']) for e in reg],
                 expected='in the loop: if has_data_to_write() && have_written_to_socket { reregister(stream, STREAM, readable|writable, edge) }')
+        entry = [e for e in evs if e.kind == 'call' and e.callee == 'mio::Poll::reregister' and not any(g[2] == 'loop' for g in e.guards)]
+        gs = [sorted(x for g in e.guards for x in S.guard_strs(g)) for e in entry]
+        ok = len(entry) == 1 and gs[0] == sorted(['if(io_loop::Inner::has_data_to_write(self.inner))', 'if($m0)']) and \
+            '(mio::Ready::readable() | mio::Ready::writable())' in S.show(entry[0].term) and S.show(entry[0].args[1]) == 'stream' and S.show(entry[0].args[2]) == 'io_loop::STREAM' and \
+            not [x for x in evs if x.idx < entry[0].idx and x.kind in ('ret', 'try')]
+        r.check('rearm-at-entry', ok, site, built=[(S.show(e.term)[:160], g) for e, g in zip(entry, gs)],
+                expected='before the loop: if has_data_to_write() && have_written_to_socket { reregister(stream, STREAM, readable|writable, edge) }',
+                why='whoever queued data before this loop was entered (protocol header, replies to frames replayed behind OpenOk) relies on it to get the socket armed for writing')
         fe = [e for e in evs if e.kind == 'for']
         r.check('rearm-after-batch', fe and rw and fe[0].idx < rw[0].idx, site)
